@@ -13,6 +13,7 @@ package kcp
 
 import (
 	"fmt"
+	"io"
 	"net"
 	"sync"
 	"sync/atomic"
@@ -80,6 +81,7 @@ func TestVerifC14(t *testing.T) {
 		rec.beginCase(desc)
 		setCurrent(rec, desc)
 		runC14Round(rec, desc, rng, &matrix, cipherName, fec, realUDP, 1+r%3, time.Duration(env.pickN(1200, 2500))*time.Millisecond)
+		c14Entropy(rec, rng)
 		rec.eval(1)
 		rec.nontrivial(hashAny(desc))
 		rec.sample("round", 2, desc)
@@ -100,6 +102,56 @@ func TestVerifC14(t *testing.T) {
 		rec.count(fmt.Sprintf("yield_point_%d_reached", i), yieldCounts[i].Load())
 	}
 	sanTally(rec)
+}
+
+// c14ArmReseed puts a generator where it is after 2^24 reads: the next read
+// reseeds it. Done under the generator's own mutex.
+func c14ArmReseed(r io.Reader) bool {
+	switch g := r.(type) {
+	case *rngAES:
+		g.mutex.Lock()
+		g.count = reseedInterval
+		g.mutex.Unlock()
+	case *rngChacha8:
+		g.mutex.Lock()
+		g.count = reseedInterval
+		g.mutex.Unlock()
+	default:
+		return false
+	}
+	return true
+}
+
+// c14Entropy: concurrent readers of one generator of each kind across reseeds.
+func c14Entropy(rec *vrec, rng *vrng) {
+	for _, g := range []io.Reader{NewEntropyAES(), NewEntropyChacha8()} {
+		var wg sync.WaitGroup
+		stop := make(chan struct{})
+		var reads atomic.Int64
+		for i := 0; i < 4; i++ {
+			wg.Add(1)
+			go func() {
+				defer wg.Done()
+				buf := make([]byte, 16)
+				for {
+					select {
+					case <-stop:
+						return
+					default:
+					}
+					io.ReadFull(g, buf)
+					reads.Add(1)
+				}
+			}()
+		}
+		for i := 0; i < 200; i++ {
+			c14ArmReseed(g)
+			time.Sleep(time.Duration(rng.between(20, 200)) * time.Microsecond)
+		}
+		close(stop)
+		wg.Wait()
+		rec.count("entropy_reads_across_forced_reseeds", reads.Load())
+	}
 }
 
 func runC14Round(rec *vrec, desc map[string]any, rng *vrng, m *overlapMatrix, cipherName string, fec, realUDP bool, nclients int, dur time.Duration) {
@@ -159,6 +211,23 @@ func runC14Round(rec *vrec, desc map[string]any, rng *vrng, m *overlapMatrix, ci
 	}
 	stop := make(chan struct{})
 	var wg sync.WaitGroup
+	// the shared nonce generator reseeds itself every 2^24 reads: bring that
+	// moment about all the time, with sessions drawing nonces around it
+	wg.Add(1)
+	ar := newRng(rng.u64())
+	go func() {
+		defer wg.Done()
+		for {
+			select {
+			case <-stop:
+				return
+			case <-time.After(time.Duration(ar.between(200, 2000)) * time.Microsecond):
+			}
+			if c14ArmReseed(entropy) {
+				rec.count("nonce_generator_reseeds_forced", 1)
+			}
+		}
+	}()
 	call := func(name string, f func()) {
 		i := methodIndex(name)
 		m.enter(i)
